@@ -141,20 +141,20 @@ def accepts(g, E):
 # A derivation node is ('n', rule_name, alt_index, events) where events is a tuple of
 #   ('t', key, start, end)            a matched terminal occurrence
 #   ('n', ...)                        a sub-derivation
-#   ('none', k)                       an unmatched [...] that is worth k placeholders
+#   ('none', alts)                    an unmatched [alts] (its placeholder width is decided when shaping)
 # EBNF operators (?, *, +, ~, groups) flatten into the parent's event list, which is what "no helper nodes are
 # visible" means.
 
-def maybe_width(g, alts):
+def maybe_width(alts, keep_all=False):
     """Number of placeholders an unmatched [alts] contributes: the largest number of kept symbols among its
     alternatives (rule references not starting with '_', kept tokens; nested [..]/? by their own size)."""
-    return max((sum(_kept_width(g, it) for it in s) for s in alts), default=0)
+    return max((sum(_kept_width(it, keep_all) for it in s) for s in alts), default=0)
 
 
-def _kept_width(g, it, keep_all=False):
+def _kept_width(it, keep_all=False):
     k = it[0]
     if k == 'ref':
-        return 1
+        return 0 if it[1].startswith('_') else 1
     if k == 'tok':
         return 0 if (it[1].startswith('_') and not keep_all) else 1
     if k == 'lit':
@@ -162,22 +162,21 @@ def _kept_width(g, it, keep_all=False):
     if k == 're':
         return 1
     if k == 'opt':
-        return _kept_width(g, it[1], keep_all)
+        return _kept_width(it[1], keep_all)
     if k in ('maybe', 'group'):
-        return max((sum(_kept_width(g, x, keep_all) for x in s) for s in it[1]), default=0)
+        return max((sum(_kept_width(x, keep_all) for x in s) for s in it[1]), default=0)
     if k in ('star', 'plus'):
         return 0
     if k == 'rep':
-        return it[3] * _kept_width(g, it[1], keep_all)
+        return it[3] * _kept_width(it[1], keep_all)
     if k == 'tmpl':
-        return 1
+        return 0 if it[1].startswith('_') else 1
     raise ValueError(it)
 
 
 class Derivations:
-    def __init__(self, g, E, cap=256, width=None):
+    def __init__(self, g, E, cap=256):
         self.g, self.E, self.cap = g, E, cap
-        self.width = width or (lambda alts: maybe_width(g, alts))
         self.chart = Chart(g, E)
         n = E.n
         self.D = D = {A: [dict() for _ in range(n + 1)] for A in g.rules}    # D[A][i][j] = set of nodes
@@ -253,7 +252,7 @@ class Derivations:
                 out.setdefault(j, set()).update(evs)
             return out
         if k == 'maybe':
-            out = {i: {(('none', self.width(it[1])),)}}
+            out = {i: {(('none', it[1]),)}}
             for j, evs in self.alts(it[1], i).items():
                 out.setdefault(j, set()).update(evs)
             return out
@@ -447,7 +446,7 @@ def _shape(node, g, text, keep_all, ph):
                 ch.append(('tok', ev[1], text[ev[2]:ev[3]]))
         elif k == 'none':
             if ph:
-                ch.extend([None] * ev[1])
+                ch.extend([None] * maybe_width(ev[1], keep_all or rule.mod == '!'))
         else:
             sub = _shape(ev, g, text, keep_all, ph)
             if sub[0] == 'splice':
@@ -456,7 +455,7 @@ def _shape(node, g, text, keep_all, ph):
                 ch.append(sub[1])
             else:
                 ch.append(('tree', sub[1], tuple(sub[2])))
-    label = alias or rule.name
+    label = alias or rule.name.split('{')[0]
     if rule.mod == '?' and not alias and len(ch) == 1:
         return ('one', ch[0])
     if rule.name.startswith('_') and not alias:
@@ -525,7 +524,7 @@ def _item_exp(it, ph, helpers):
         return [e for s in it[1] for e in _expansions(s, ph, helpers)]
     if k == 'maybe':
         inner = [e for s in it[1] for e in _expansions(s, ph, helpers)]
-        w = maybe_width(None, it[1])
+        w = maybe_width(it[1])
         return inner + [((('E', w),) if (ph and w) else ())]
     if k in ('star', 'plus'):
         helpers.append(_item_exp(it[1], ph, helpers))
@@ -553,23 +552,27 @@ def _erase(e):
 
 
 def construction_may_fail(g, placeholders=True):
-    """True iff some rule (or repetition helper) has two *different* annotated expansions/aliases that erase to
-    the same non-empty symbol sequence -- the documented GrammarError("Rules defined twice ...") case."""
+    """True iff some rule (or repetition helper) has two expansion *paths* of its optional items (?, [..], ~n..m,
+    alternatives differing only in alias or placeholder positions) that erase to the same non-empty symbol sequence --
+    the documented GrammarError("Rules defined twice ... colliding expansion of optionals") case.  Only used in the
+    direction GrammarError => predicate."""
     try:
         for r in g.rules.values():
             helpers = []
-            seen = {}
+            seen = set()
             for seq, alias in r.alts:
                 for e in _expansions(seq, placeholders, helpers):
                     er = _erase(e)
-                    if er and seen.setdefault(er, (e, alias)) != (e, alias):
+                    if er and er in seen:
                         return True
+                    seen.add(er)
             for body in helpers:
-                seen = {}
+                seen = set()
                 for e in body:
                     er = _erase(e)
-                    if er and seen.setdefault(er, e) != e:
+                    if er and er in seen:
                         return True
+                    seen.add(er)
     except TooAmbiguous:
         return True
     return False
